@@ -19,7 +19,7 @@ open Tickit Tickit.Life
     `src/renderbuffer.c` on every run). -/
 def extracted : Cfg :=
   ⟨Gen.Life.closePurges, Gen.Life.destroyClosesChildren, Gen.Life.spanExactFit, Gen.Life.mouseKeepsRoot,
-   Gen.Life.lastPressInit, Gen.Life.dragForgottenOnClose, Gen.Life.snapshotRouting⟩
+   Gen.Life.lastPressInit, Gen.Life.dragForgottenOnClose, Gen.Life.snapshotRouting, Gen.Life.penCopyKeepsSrc⟩
 
 /-- The source tree contains the repairs the theorems below need (close purges the queue and forgets the drag
     source, destroy closes a child before dropping its reference, `get_span_text` terminates only with room).
